@@ -366,3 +366,46 @@ def run(ctx):
 
 def replay(ctx, data):
     return generic_replay(data)
+
+
+# ---------------------------------------------------------------------------------
+# native hooks of the proof tier: search a concrete failing input on the real code when an
+# obligation of the named function fails (seeded by nothing but a small exhaustive scope)
+def _native_builders(cls):
+    for n in range(0, 4):
+        for signs in itertools.product([1, -1], repeat=n):
+            lits = [s * (i + 1) for i, s in enumerate(signs)]
+            for op in ('>=', '<=', '<', '>', '=='):
+                for k in range(-1, n + 2):
+                    bad = eval_linear(cls, lits, 'list', op, k, max(n, 1))
+                    if bad:
+                        return ('linear:{}:list:{}'.format(cls, op), '{} {} {} {} : {}'.format(cls, lits, op, k, bad),
+                                {'fn': 'checks.C04:replay_linear', 'args': dict(cls=cls, lits=lits, shape='list', op=op, k=k, nvars=max(n, 1))})
+            for meth in MEANING:
+                bad = eval_named(cls, meth, lits, 'list', max(n, 1))
+                if bad:
+                    return ('{}:{}:list'.format(meth, cls), '{} {} {} : {}'.format(cls, meth, lits, bad),
+                            {'fn': 'checks.C04:replay_named', 'args': dict(cls=cls, meth=meth, lits=lits, shape='list', nvars=max(n, 1))})
+    return None
+
+
+def native_cnf(model):
+    return _native_builders('cnf')
+
+
+def native_opb(model):
+    return _native_builders('opb') or native_normalize(model)
+
+
+def native_normalize(model):
+    for nt in range(0, 3):
+        for cs in itertools.product([-2, -1, 1, 3], repeat=nt):
+            for ls in itertools.product([1, -1, 2, -2], repeat=nt):
+                for op in ('>=', '<=', '<', '>', '=='):
+                    for v in range(-3, 5):
+                        con = [(c, l) for c, l in zip(cs, ls)] + [op, v]
+                        bad = eval_normalize(con)
+                        if bad:
+                            return ('normalize_opb:' + op, '{} : {}'.format(con, bad),
+                                    {'fn': 'checks.C04:replay_normalize', 'args': dict(con=con)})
+    return None
